@@ -835,6 +835,181 @@ func c18Continue(c *Ctx, kind int, cv c18Curve, m c18Mut, d c18Decoded, run *c18
 	}
 }
 
+// ---------------------------------------------------------------- overlapping sessions
+//
+// One garbler process serving several sessions (or retrying round 3): every
+// Round3Payload is kept in memory as a Go value while later rounds of other
+// sessions run.  The result of a round must depend on (state, message,
+// randomness) only: a payload must not change after it was returned (its
+// encoding taken immediately must equal its encoding taken later) and must
+// still evaluate to SHA-256(a xor b).
+
+type c18Sess struct {
+	id         int
+	cv         c18Curve
+	a, b       [32]byte
+	s1, s2, s3 uint64
+	step       int // next round to run: 1..4, 5 = done
+	r1         sha2pc.Round1Payload
+	gs         *sha2pc.GarblerSession
+	r2         sha2pc.Round2Payload
+	es         *sha2pc.EvaluatorSession
+	r3         sha2pc.Round3Payload
+	enc3       []byte // EncodeRound3(r3) taken right after GarblerRound3 (nil: not taken)
+	digest     [32]byte
+}
+
+func c18NewSess(r *RNG, id int, cv c18Curve) *c18Sess {
+	s := &c18Sess{id: id, cv: cv, step: 1}
+	copy(s.a[:], r.Bytes(32))
+	copy(s.b[:], r.Bytes(32))
+	s.s1, s.s2, s.s3 = r.U64(), r.U64(), r.U64()
+	return s
+}
+
+// c18SessStep runs the session's next round; snapshot: encode the Round3
+// payload immediately after it is produced.
+func c18SessStep(s *c18Sess, snapshot bool) error {
+	var err error
+	switch s.step {
+	case 1:
+		s.r1, s.gs, err = sha2pc.GarblerRound1(NewRNG(s.s1), s.cv.c)
+	case 2:
+		s.r2, s.es, err = sha2pc.EvaluatorRound2(NewRNG(s.s2), s.cv.c, s.r1, s.b)
+	case 3:
+		s.r3, err = sha2pc.GarblerRound3(NewRNG(s.s3), s.cv.c, s.gs, s.a, s.r2)
+		if err == nil && snapshot {
+			s.enc3, err = sha2pc.EncodeRound3(s.r3)
+		}
+	case 4:
+		s.digest, err = sha2pc.EvaluatorRound4(s.cv.c, s.es, s.r3)
+	}
+	if err != nil {
+		return fmt.Errorf("session %d round %d: %v", s.id, s.step, err)
+	}
+	s.step++
+	return nil
+}
+
+// c18SessCheck: after everything ran, the held payload still encodes to the
+// snapshot and the digest is right.  what names the scenario (oracle key).
+func c18SessCheck(c *Ctx, what, order string, s *c18Sess, stepErr error) {
+	rep := c18Replay{Seed: c.Seed, Curve: s.cv.name, A: fmt.Sprintf("%x", s.a), B: fmt.Sprintf("%x", s.b),
+		Seeds: fmt.Sprintf("%d,%d,%d", s.s1, s.s2, s.s3), Plan: fmt.Sprintf("%s session %d order %s", what, s.id, order)}
+	if s.enc3 != nil {
+		now, err := sha2pc.EncodeRound3(s.r3)
+		if err != nil || !bytes.Equal(now, s.enc3) {
+			diff := -1
+			for i := 0; err == nil && i < len(now) && i < len(s.enc3); i++ {
+				if now[i] != s.enc3[i] {
+					diff = i
+					break
+				}
+			}
+			rep.What = fmt.Sprintf("a Round3 payload held in memory changed after a later GarblerRound3 in the same process (first differing byte of its encoding: %d)", diff)
+			c.Fail("c18:"+what+":round3-payload-changed-after-later-garble", rep.What, rep)
+		}
+	}
+	if stepErr != nil {
+		rep.What = "a round fails when sessions overlap in one process: " + stepErr.Error()
+		c.Fail("c18:"+what+":round-error", rep.What, rep)
+		return
+	}
+	if s.step != 5 {
+		return
+	}
+	var x [32]byte
+	for i := range x {
+		x[i] = s.a[i] ^ s.b[i]
+	}
+	if want := sha256.Sum256(x[:]); s.digest != want {
+		rep.What = "evaluator output differs from SHA-256(a xor b) when sessions overlap in one process"
+		rep.Got, rep.Want = fmt.Sprintf("%x", s.digest), fmt.Sprintf("%x", want)
+		c.Fail("c18:"+what+":wrong-digest", rep.What, rep)
+	}
+}
+
+// c18RunOrder runs the sessions' rounds in the given order (order[i] = index
+// of the session whose next round runs) and checks every session.
+func c18RunOrder(c *Ctx, what string, sess []*c18Sess, order []int, snapshot bool) {
+	ostr := fmt.Sprint(order)
+	errs := make([]error, len(sess))
+	for _, k := range order {
+		if errs[k] == nil {
+			errs[k] = c18SessStep(sess[k], snapshot)
+		}
+	}
+	for k, s := range sess {
+		c18SessCheck(c, what, ostr, s, errs[k])
+	}
+	c.Eval(fmt.Sprintf("overlap|%s|%s|%v|%d", what, ostr, snapshot, sess[0].s1), true)
+	c.Hist("overlap:" + what)
+}
+
+func c18Overlapping(c *Ctx) {
+	cv := c18Curves[1] // P-256: the overlap is about the garbler's memory, not the curve
+	r := c.rng.Fork()
+	// (a) two sessions, both round-3 payloads computed before either is
+	// encoded or evaluated; and the same with an immediate snapshot
+	for _, snap := range []bool{false, true} {
+		ss := []*c18Sess{c18NewSess(r, 0, cv), c18NewSess(r, 1, cv)}
+		c18RunOrder(c, "overlapping-sessions", ss, []int{0, 1, 0, 1, 0, 1, 0, 1}, snap)
+	}
+	// (b) round 3 retried with fresh randomness: the FIRST payload must still
+	// verify (and so must the second)
+	{
+		s := c18NewSess(r, 0, cv)
+		var err error
+		for i := 0; i < 3 && err == nil; i++ {
+			err = c18SessStep(s, true)
+		}
+		first := *s
+		if err == nil {
+			s.step = 3
+			s.s3 = r.U64()
+			s.enc3 = nil
+			err = c18SessStep(s, true) // the retry
+		}
+		second := *s
+		var e1, e2 error
+		if err == nil {
+			e1 = c18SessStep(&first, false)
+			e2 = c18SessStep(&second, false)
+		} else {
+			e1, e2 = err, err
+		}
+		first.id, second.id = 0, 1
+		c18SessCheck(c, "round3-retry", "first-payload", &first, e1)
+		c18SessCheck(c, "round3-retry", "second-payload", &second, e2)
+		c.Eval(fmt.Sprintf("overlap|retry|%d", s.s1), true)
+		c.Hist("overlap:round3-retry")
+	}
+	// (c) random interleavings of the rounds of 2..3 sessions
+	n := c.N(4, 60)
+	for i := 0; i < n; i++ {
+		k := 2 + r.Intn(2)
+		ss := make([]*c18Sess, k)
+		left := make([]int, k)
+		for j := range ss {
+			scv := cv
+			if c.Thorough() && r.Intn(4) == 0 {
+				scv = c18Curves[r.Intn(3)]
+			}
+			ss[j] = c18NewSess(r, j, scv)
+			left[j] = 4
+		}
+		var order []int
+		for len(order) < 4*k {
+			j := r.Intn(k)
+			if left[j] > 0 {
+				left[j]--
+				order = append(order, j)
+			}
+		}
+		c18RunOrder(c, "interleaved-sessions", ss, order, r.Intn(3) != 0)
+	}
+}
+
 // ---------------------------------------------------------------- runner
 
 func c18Inputs(r *RNG, class int) (a, b [32]byte, name string) {
@@ -939,6 +1114,9 @@ func runC18(c *Ctx) error {
 			}
 		}
 	}
+
+	// ---- several sessions / a round-3 retry in one garbler process
+	c18Overlapping(c)
 
 	// ---- (a) protocol runs, (b) decode cases, (c) mutations
 	plans := []c18Plan{
